@@ -96,6 +96,9 @@ def synthetic_shapes(isa, rnd):
         dict(name="opn", canon=["ms", "d"], order={x: [0, 1], a: [1, 0]}, in_db=False, memform=True),
         dict(name="opz", canon=["s", "s"], order={x: [0, 1], a: [0, 1]}, in_db=True, fw=["Z"]),   # other flag
         dict(name="opy", canon=["d"], order={x: [0], a: [0]}, in_db=True, fr=["Z"]),
+        # a store (both ISAs write "ost src, mem"): with it a model that declares hidden_loads flags loads as hidden
+        # behind stores; its displacement is one no load reaches, so no store-to-load edge arises (that is C06's)
+        dict(name="ost", canon=["s", "md"], order={x: [0, 1], a: [0, 1]}, in_db=True),
     ]
     # implicit register operands only (like cltq / cqto): no written operand at all
     hp = GPR_POOL[isa]
@@ -154,6 +157,11 @@ def write_synthetic_models(isa, shapes, dirpath, pidx=None, fwd=None, hidden_loa
                     ops_arch.append(synth.mem(isa, base="gpr", offset="*", index=None, scale=1,
                                               pre_indexed=(s["wb"] == "pre"), post_indexed=(s["wb"] == "post")))
                     ops_isa.append(None)
+            elif r == "md":
+                ops_arch.append(synth.mem(isa, base="gpr", offset="*", index=None, scale=1))
+                ops_isa.append(synth.mem(isa, base="*", offset="*", index="*", scale="*", source=False, destination=True))
+                if isa == "aarch64":
+                    ops_isa[-1]["pre_indexed"] = ops_isa[-1]["post_indexed"] = "*"
         forms.append({"name": s["name"], "operands": ops_arch, "throughput": 1.0, "latency": s["lat"],
                       "port_pressure": [[1, "01"]], "uops": 1})
         if s["in_db"]:
@@ -250,6 +258,14 @@ def gen_instr(isa, shape, rnd, pool=None, vpool=None, args=None, same_width=Fals
             else:
                 t = "[%s, #%d]" % (bname, disp) if disp else "[%s]" % bname
                 LD.append({"b": b, "x": "", "s": 1, "d": disp, "t": t})
+            texts_c[i] = t
+        elif r == "md":
+            b = args[i]
+            bname = reg_name(isa, b, rnd, wide=True)
+            disp = rnd.choice([4096, 4104, 8192])
+            R.add(b)
+            t = "%d(%%%s)" % (disp, bname) if isa == "x86" else "[%s, #%d]" % (bname, disp)
+            ST.append({"b": b, "x": "", "s": 1, "d": disp, "t": t})
             texts_c[i] = t
     if all_same_fam and not idiom and len({texts_c[i] for i in reg_roles}) == 1:
         idiom = True   # random widths happened to coincide
